@@ -13,6 +13,7 @@
                       DB.Querier / ChunkQuerier / ExemplarQuerier           -> query
      db_append_v2.go  appenderV2.Append / appendExemplars /
                       bestEffortAppendSTZeroSample                          -> append_v2 / ex_fold / best_effort
+     checkpoint.go    Checkpoint (Options.CheckpointFromInMemorySeries)     -> inmem_checkpoint
    wlog.Checkpoint, the WAL directory and the agent's keep function are the definitions of
    model/Checkpoint.v (property C15), re-used unchanged.
 
@@ -44,7 +45,8 @@ Record mser := mkS { s_ref : ref; s_lab : lab; s_last : Z }.
 
 Record opts := mkO {
   o_oow : Z;        (* Options.OutOfOrderTimeWindow *)
-  o_stz : bool      (* Options.EnableSTAsZeroSample *)
+  o_stz : bool;     (* Options.EnableSTAsZeroSample *)
+  o_inmem : bool    (* Options.CheckpointFromInMemorySeries *)
 }.
 
 Record db := mkDB {
@@ -52,7 +54,8 @@ Record db := mkDB {
   d_series : list mser;            (* db.series, in creation order *)
   d_deleted : list (ref * Z);      (* db.deleted: ref -> lastSegment *)
   d_lastex : list (ref * Z);       (* stripeSeries.exemplars: ref -> latest exemplar (interned) *)
-  d_wal : wal
+  d_wal : wal;
+  d_dlab : list (ref * lab)        (* db.deleted[ref].labels (kept only with CheckpointFromInMemorySeries) *)
 }.
 
 Definition sample := (ref * Z * Z)%type.     (* ((ref, t), v) *)
@@ -70,7 +73,7 @@ Definition app_empty : app := mkApp [] [] [] [] [].
 
 Record state := mkSt { st_db : db; st_apps : list (Z * app) }.
 
-Definition db_empty : db := mkDB 0 [] [] [] wal_empty.
+Definition db_empty : db := mkDB 0 [] [] [] wal_empty [].
 Definition st_empty : state := mkSt db_empty [].
 
 Definition get_app (st : state) (a : Z) : app :=
@@ -110,7 +113,7 @@ Definition get_or_create (d : db) (p : app) (r : ref) (b : lab) : (db * app * ms
       | None =>
           let nr := d_next d + 1 in
           let s := mkS nr b minInt64 in
-          inl (mkDB nr (d_series d ++ [s]) (d_deleted d) (d_lastex d) (d_wal d),
+          inl (mkDB nr (d_series d ++ [s]) (d_deleted d) (d_lastex d) (d_wal d) (d_dlab d),
                mkApp (p_series p ++ [(nr, b)]) (p_samples p) (p_hist p) (p_fhist p) (p_ex p),
                s)
       end
@@ -145,7 +148,7 @@ Definition exemplar := (Z * Z * Z)%type.   (* ((id, ts), bad) *)
 
 Definition set_lastex (d : db) (r : ref) (e : Z) : db :=
   match find_id r (d_series d) with   (* SetLatestExemplar: only for a ref in the series map *)
-  | Some _ => mkDB (d_next d) (d_series d) (d_deleted d) (upsert r e (d_lastex d)) (d_wal d)
+  | Some _ => mkDB (d_next d) (d_series d) (d_deleted d) (upsert r e (d_lastex d)) (d_wal d) (d_dlab d)
   | None => d
   end.
 
@@ -247,32 +250,62 @@ Definition bump (l : list mser) (xs : list sample) : list mser :=
 
 Definition commit (d : db) (p : app) (rolls : list Z) : db :=
   let ser := bump (bump (bump (d_series d) (p_samples p)) (map snd (p_hist p))) (map snd (p_fhist p)) in
-  mkDB (d_next d) ser (d_deleted d) (d_lastex d) (wal_write (d_wal d) rolls (log_records p)).
+  mkDB (d_next d) ser (d_deleted d) (d_lastex d) (wal_write (d_wal d) rolls (log_records p)) (d_dlab d).
 
 Definition rollback (d : db) (p : app) (rolls : list Z) : db :=
   mkDB (d_next d) (d_series d) (d_deleted d) (d_lastex d)
-       (wal_write (d_wal d) rolls (nonempty RSeries (p_series p))).
+       (wal_write (d_wal d) rolls (nonempty RSeries (p_series p))) (d_dlab d).
 
 (* ------------------------------------------------------------------ truncate / gc *)
 (* stripeSeries.GC: series without a write since mint *)
 Definition gc_gone (mint : Z) (l : list mser) : list ref :=
   map s_ref (filter (fun s => s_last s <? mint) l).
 
-(* DB.truncate(mint) with wlog.Checkpoint (Options.CheckpointFromInMemorySeries = false, the default;
-   the in-memory checkpoint of checkpoint.go is not modelled) *)
-Definition truncate (d : db) (mint : Z) : db :=
+(* agent.Checkpoint (CheckpointFromInMemorySeries): nothing is read back from the WAL.  The new checkpoint
+   holds a series record of every active series together with a float sample record carrying the
+   series' last timestamps (value 0 = interned `zv`), then the series records of the deleted series that
+   are still needed (lastSegment > last) with the labels remembered in db.deleted.  Batches of 1000
+   series (the harness stays far below: one batch).  The order inside each record is Go map order;
+   the correspondence compares the records of such a checkpoint sorted by ref. *)
+Definition inmem_checkpoint (ser : list mser) (del : list (ref * Z)) (dlab : list (ref * lab)) (last zv : Z)
+  : list record :=
+  match ser with
+  | [] => []
+  | _ => [RSeries (map (fun s => (s_ref s, s_lab s)) ser); RSamples 0 (map (fun s => (s_ref s, s_last s, zv)) ser)]
+  end ++
+  nonempty RSeries (map (fun e => (fst e, match lookup (fst e) dlab with Some b => b | None => 0 end))
+                        (filter (fun e => last <? snd e) del)).
+
+(* DB.truncate(mint).  Default: wlog.Checkpoint over the old checkpoint and the segments up to `last`
+   (Checkpoint.agent_truncate).  zv is only used by the in-memory checkpoint. *)
+Definition truncate (o : opts) (d : db) (mint zv : Z) : db :=
   let gone := gc_gone mint (d_series d) in
   let ser := filter (fun s => negb (memz (s_ref s) gone)) (d_series d) in
   let lastex := filter (fun e => negb (memz (fst e) gone)) (d_lastex d) in
-  let a := agent_truncate (mkAgent (map s_ref (d_series d)) (d_deleted d) (d_wal d)) mint gone in
-  mkDB (d_next d) ser (a_deleted a) lastex (a_wal a).
+  if o_inmem o then
+    let w := d_wal d in
+    let del := set_all gone (w_cur w) (d_deleted d) in
+    let dlab := fold_left (fun m s => if memz (s_ref s) gone then upsert (s_ref s) (s_lab s) m else m) (d_series d) (d_dlab d) in
+    let w1 := wal_next_segment w in
+    match plan_last (w_first w) (w_cur w) with
+    | None => mkDB (d_next d) ser del lastex w1 dlab
+    | Some last =>
+        let keepd := filter (fun e => last <? snd e) del in
+        mkDB (d_next d) ser keepd lastex
+             (wal_checkpointed w1 last (inmem_checkpoint ser del dlab last zv))
+             (filter (fun e => match lookup (fst e) keepd with Some _ => true | None => false end) dlab)
+    end
+  else
+    let a := agent_truncate (mkAgent (map s_ref (d_series d)) (d_deleted d) (d_wal d)) mint gone in
+    mkDB (d_next d) ser (a_deleted a) lastex (a_wal a) (d_dlab d).
 
 (* ------------------------------------------------------------------ restart: Close + Open (replayWAL) *)
 Record rstate := mkR {
   r_series : list mser;
   r_dup : list (ref * ref);        (* duplicateRefToValidRef *)
   r_deleted : list (ref * Z);
-  r_lastref : Z
+  r_lastref : Z;
+  r_dlab : list (ref * lab)
 }.
 
 Definition mark_deleted (seg : Z) (need_present : bool) (r : ref) (del : list (ref * Z)) : list (ref * Z) :=
@@ -281,11 +314,16 @@ Definition mark_deleted (seg : Z) (need_present : bool) (r : ref) (del : list (r
   | None => if need_present then del else if 0 <=? seg then upsert r seg del else del
   end.
 
-Definition replay_series (seg : Z) (st : rstate) (e : ref * lab) : rstate :=
+(* did mark_deleted (need_present = false) store a new entry? then the labels are stored with it *)
+Definition marks (seg : Z) (r : ref) (del : list (ref * Z)) : bool :=
+  match lookup r del with Some m => m <=? seg | None => 0 <=? seg end.
+
+Definition replay_series (inmem : bool) (seg : Z) (st : rstate) (e : ref * lab) : rstate :=
   let lr := Z.max (r_lastref st) (fst e) in
   match find_lab (snd e) (r_series st) with
   | Some s => mkR (r_series st) (upsert (fst e) (s_ref s) (r_dup st)) (mark_deleted seg false (fst e) (r_deleted st)) lr
-  | None => mkR (r_series st ++ [mkS (fst e) (snd e) 0]) (r_dup st) (r_deleted st) lr
+                  (if inmem && marks seg (fst e) (r_deleted st) then upsert (fst e) (snd e) (r_dlab st) else r_dlab st)
+  | None => mkR (r_series st ++ [mkS (fst e) (snd e) 0]) (r_dup st) (r_deleted st) lr (r_dlab st)
   end.
 
 Definition replay_sample (seg : Z) (st : rstate) (x : sample) : rstate :=
@@ -294,11 +332,11 @@ Definition replay_sample (seg : Z) (st : rstate) (x : sample) : rstate :=
                     | Some v => (v, mark_deleted seg true r (r_deleted st))
                     | None => (r, r_deleted st)
                     end in
-  mkR (set_last r' (fun l => if l <? snd (fst x) then snd (fst x) else l) (r_series st)) (r_dup st) del (r_lastref st).
+  mkR (set_last r' (fun l => if l <? snd (fst x) then snd (fst x) else l) (r_series st)) (r_dup st) del (r_lastref st) (r_dlab st).
 
-Definition replay_rec (st : rstate) (sr : Z * record) : rstate :=
+Definition replay_rec (inmem : bool) (st : rstate) (sr : Z * record) : rstate :=
   match snd sr with
-  | RSeries l => fold_left (replay_series (fst sr)) l st
+  | RSeries l => fold_left (replay_series inmem (fst sr)) l st
   | RSamples _ l => fold_left (replay_sample (fst sr)) l st
   | _ => st
   end.
@@ -307,11 +345,11 @@ Definition replay_rec (st : rstate) (sr : Z * record) : rstate :=
 Definition wal_tagged (w : wal) : list (Z * record) :=
   map (fun r => (w_cpidx w, r)) (w_cp w) ++ filter (fun sr => w_cpidx w <? fst sr) (w_segs w).
 
-Definition replay (w : wal) : rstate := fold_left replay_rec (wal_tagged w) (mkR [] [] [] 0).
+Definition replay (inmem : bool) (w : wal) : rstate := fold_left (replay_rec inmem) (wal_tagged w) (mkR [] [] [] 0 []).
 
-Definition restart (d : db) : db :=
-  let r := replay (d_wal d) in
-  mkDB (r_lastref r) (r_series r) (r_deleted r) [] (wal_next_segment (d_wal d)).
+Definition restart (o : opts) (d : db) : db :=
+  let r := replay (o_inmem o) (d_wal d) in
+  mkDB (r_lastref r) (r_series r) (r_deleted r) [] (wal_next_segment (d_wal d)) (r_dlab r).
 
 (* DB.Querier / ChunkQuerier / ExemplarQuerier *)
 Definition query (d : db) (which mint maxt : Z) : Z := E_UNSUPPORTED.
@@ -322,7 +360,7 @@ Inductive event :=
 | EExemplar (a : Z) (r : ref) (e : exemplar)
 | ECommit (a : Z) (rolls : list Z)
 | ERollback (a : Z) (rolls : list Z)
-| ETruncate (mint : Z)
+| ETruncate (mint zv : Z)
 | ERoll
 | ERestart
 | ESnap                                        (* re-read the WAL directory (no effect) *)
@@ -360,14 +398,14 @@ Definition step (o : opts) (st : state) (e : event) : state * obs :=
       let p := get_app st a in
       (mkSt (rollback d p rolls) (remove_key a (st_apps st)),
        OLog (attach (w_cur (d_wal d)) rolls (nonempty RSeries (p_series p))))
-  | ETruncate mint =>
-      let d' := truncate d mint in
+  | ETruncate mint zv =>
+      let d' := truncate o d mint zv in
       let w := d_wal d' in
       (mkSt d' (st_apps st),
        OTrunc (w_cpidx w) (w_cp w) (w_first w) (w_cur w) (w_segs w) (d_series d') (d_deleted d'))
-  | ERoll => (mkSt (mkDB (d_next d) (d_series d) (d_deleted d) (d_lastex d) (wal_next_segment (d_wal d))) (st_apps st), ONone)
+  | ERoll => (mkSt (mkDB (d_next d) (d_series d) (d_deleted d) (d_lastex d) (wal_next_segment (d_wal d)) (d_dlab d)) (st_apps st), ONone)
   | ERestart =>
-      let d' := restart d in
+      let d' := restart o d in
       (mkSt d' [], ORestart (d_next d') (d_series d') (d_deleted d') (w_first (d_wal d')) (w_cur (d_wal d')))
   | ESnap => let w := d_wal d in (st, OSnap (w_cpidx w) (w_cp w) (w_first w) (w_cur w) (w_segs w))
   | EQuery which mint maxt => (st, OQuery (query d which mint maxt))
@@ -422,7 +460,7 @@ Fixpoint wf_from (open : option Z) (es : list event) : bool :=
           match open with None => wf_from (Some a) t | Some b => (a =? b) && wf_from open t end
       | ECommit a _ | ERollback a _ =>
           match open with None => wf_from None t | Some b => (a =? b) && wf_from None t end
-      | ETruncate _ | ERestart => match open with None => wf_from None t | Some _ => false end
+      | ETruncate _ _ | ERestart => match open with None => wf_from None t | Some _ => false end
       | ERoll | ESnap | EQuery _ _ _ => wf_from open t
       end
   end.
